@@ -479,6 +479,10 @@ def rule_move_text(ctx):
     for r in range(8):
         for f in range(8):
             sc = cases.run(ix, sb, {"*self.rank": ("const", r, "u8"), "*self.file": ("const", f, "u8")})
+            if not (len(sc.paths) == 1 and sc.paths[0].end == "return"):
+                # the square as a whole value, so that predicates taking it (`self.is_on_board()`) fold as well
+                whole = ("agg", "board::square::Square", "Square", (("const", r, "u8"), ("const", f, "u8")), ("rank", "file"))
+                sc = cases.run(ix, sb, {sb.local_name(1): ("ref", whole) if sb.locals[1]["ty"].startswith("&") else whole})
             txt = None
             if len(sc.paths) == 1 and sc.paths[0].end == "return":
                 ev, idx = fmt_event(sc.paths[0].events)
